@@ -439,10 +439,49 @@ fn build_oracle(c: &BuildCase) -> Outcome {
     Outcome::pass_with(true, vec![if parses { "built" } else { "built-payload-does-not-parse-back" }])
 }
 
+/// Fuzz entry: raw bytes to every byte-level constructor.  `from_bytes` must agree with the
+/// independent acceptance rule; every accepted value (also from the unchecked constructors)
+/// must be inspectable without panicking.
+pub fn fuzz_wire(data: &[u8]) -> Outcome {
+    let helper = SignedPacket::from_txt_strings(&SecretKey::from_bytes(&[3u8; 32]), "_iroh", ["k=v"], 30).expect("tiny packet builds");
+    let names: Vec<String> = vec!["_iroh".into(), "@".into(), "".into(), ".".into(), "foo".into()];
+    let expect = reference_accepts(data);
+    let got = SignedPacket::from_bytes(data);
+    check!(got.is_ok() == expect, "C32:acceptance", "from_bytes accepted={} but the independent rule says {} for {} bytes", got.is_ok(), expect, data.len());
+    let mut any = false;
+    let mut candidates: Vec<(&'static str, SignedPacket)> = vec![];
+    if let Ok(p) = got { candidates.push(("from_bytes", p)); }
+    if let Ok(p) = SignedPacket::from_bytes_unchecked(data) { candidates.push(("from_bytes_unchecked", p)); }
+    if data.len() >= 32 {
+        if let Ok(k) = PublicKey::try_from(&data[..32]) {
+            let r = SignedPacket::from_relay_payload(&k, &bytes::Bytes::copy_from_slice(&data[32..]));
+            check!(r.is_ok() == expect, "C32:acceptance", "from_relay_payload accepted={} but the independent rule says {}", r.is_ok(), expect);
+            if let Ok(p) = r { candidates.push(("from_relay_payload", p)); }
+        }
+    }
+    for (ctor, p) in &candidates {
+        any = true;
+        if let Err(what) = inspect(p, &helper, &names) {
+            let key_ok = is_point(&p.as_bytes()[..32]);
+            let sig = if key_ok { "C32:accessor-panics-on-accepted-packet" } else { "C32:unchecked-constructor-accepts-non-point-key" };
+            return Outcome::violation(sig, format!("{ctor} returned Ok (key is a curve point: {key_ok}); then {what}"));
+        }
+    }
+    Outcome::pass(any)
+}
+
+pub fn fuzz_wire_seeds() -> Vec<Vec<u8>> {
+    let p = SignedPacket::from_txt_strings(&SecretKey::from_bytes(&[5u8; 32]), "_iroh", ["relay=https://r.example/", "addr=1.2.3.4:5"], 30).expect("builds");
+    let mut bad_key = p.as_bytes().to_vec();
+    bad_key[..32].copy_from_slice(&{ let mut b = [0u8; 32]; b[0] = 2; b });
+    vec![p.as_bytes().to_vec(), bad_key, sign_packet(&[6u8; 32], 77, &[])]
+}
+
 pub fn run(ctx: &Ctx) {
     ctx.rule("cases: a packet signed by the harness (ed25519-dalek, own BEP44 signable) over a DNS payload from an independent writer (well-formed replies with TXT/A/AAAA/CNAME records under _iroh/zone/other names, and hostile ones: compression pointers anywhere, wrong section counts, label and rdata lengths, raw rdata, byte edits), any timestamp; one modification (1-3 bit flips anywhere, truncation, extension, key swapped for another valid key, signature by another key, timestamp +-1, payload or header transplanted from another packet of the same key, key bytes replaced by a 32-byte candidate that is often not a curve point); from_parts_unchecked with arbitrary slice lengths; second part: packets built by from_txt_strings from arbitrary names and values; non-trivial = the modified packet's DNS payload still parses, or a non-point key is offered to the constructors, or a hostile DNS payload parses (and is therefore accepted and inspected)");
     ctx.assume("'the payload parses' is decided by simple_dns::Packet::parse, the parser the statement refers to; a forged signature verifying by chance is not considered");
     let k = ctx.tier.pick(1, 10);
     ctx.explore("packets", ExploreOpts::new(48_000 * k), case_strategy, oracle);
     ctx.explore("built", ExploreOpts::new(12_000 * k), build_strategy, build_oracle);
+    ctx.fuzz_campaign("c32_wire", ctx.tier.pick(0, 1_500_000), 1200, fuzz_wire_seeds(), &fuzz_wire);
 }
